@@ -168,9 +168,13 @@ Proof.
   apply matches_from_none. intros j Hj. specialize (Hfront j i ltac:(lia) ltac:(lia)). lia.
 Qed.
 
+Lemma Abs_prefix_BU : forall I J sb O, AbsBU I J sb O -> 0 <= I <= len L -> 0 <= J <= len R ->
+  exists rest, join_spec emit inv L R = O ++ rest.
+Proof. intros I J sb O (_ & _ & _ & HO & _) HI _. subst O. apply rows_upto_prefix. exact HI. Qed.
+
 Definition KindOK_BU : KindOK KBU emit L R inv cs.
 Proof.
-  refine (mkKindOK KBU emit L R inv cs AbsBU LocBU _ _ _ kstep_ok_BU Abs_final_BU).
+  refine (mkKindOK KBU emit L R inv cs AbsBU LocBU _ _ _ kstep_ok_BU Abs_final_BU Abs_prefix_BU).
   - intros s Hr Hi Hj. unfold LocBU. lia.
   - unfold AbsBU. simp_st. pose proof (len_nonneg L). pose proof (len_nonneg R).
     splits; try lia; try reflexivity.
